@@ -74,6 +74,18 @@ def build_harness(bin_name):
     return os.path.join(TARGET, "debug", bin_name)
 
 
+def build_shim():
+    """LD_PRELOAD crash injector (harness/shim/crashshim.c) -> path of the shared object"""
+    os.makedirs(CACHE, exist_ok=True)
+    so = os.path.join(CACHE, "crashshim.so")
+    src = os.path.join(ROOT, "harness", "shim", "crashshim.c")
+    if not os.path.exists(so) or os.path.getmtime(so) < os.path.getmtime(src):
+        p = sh(["gcc", "-shared", "-fPIC", "-O1", "-o", so, src, "-ldl"], check=False, timeout=300)
+        if p.returncode != 0:
+            raise BuildBroken("cannot build the crash shim:\n" + p.stdout[-2000:])
+    return so
+
+
 # ---------------------------------------------------------------- Coq
 
 FORBIDDEN = re.compile(r"\b(Admitted|admit|Axiom|Axioms|Parameter|Parameters|Conjecture|Conjectures|"
